@@ -464,6 +464,11 @@ func checkC03(w *World, r *Report) {
 	c03Decode(w, r, pa)
 	c03MatchersPure(w, r)
 	c03Unnamed(w, r)
+	if ra, err := findRepo(w); err == nil {
+		c03CapturesSurvive(w, r, ra)
+	} else {
+		r.Undecided(nil, err.Error())
+	}
 }
 
 // combinatorPolarity classifies Matches of a slice-of-RouteMatcher type: "all" (fails on first
@@ -1287,5 +1292,87 @@ func c02Specificity(w *World, r *Report, ra *repoAnchors) {
 		}
 		r.Ob(ri, fmt.Sprintf("%s|%s-only-after-miss-and-backtracking", w.FnName(fn), b.kind), b.in.Pos(), ok,
 			"the "+b.kind+" alternative is tried although a more specific alternative found a match or forbade backtracking")
+	}
+}
+
+// c03CapturesSurvive (C03.6): the values captured for the wildcards further up the path are the
+// lookup's own `captures` parameter. What a descent into an alternative returns is only valid if
+// that alternative found the node; the next alternative must start from the parameter again.
+func c03CapturesSurvive(w *World, r *Report, ra *repoAnchors) {
+	ri := r.Rule("C03.6", 2, "within one lookup step every alternative (static child, wildcard, catch-all) is tried with the captured values this step received, never with what a failed earlier alternative returned")
+	fn := treeMethod(w, ra, "findNode")
+	if fn == nil || len(fn.Params) < 3 {
+		r.Undecided(ri, "tree method findNode not found")
+		return
+	}
+	r.Analysed(w.FnName(fn))
+	var capParam *ssa.Parameter
+	for _, p := range fn.Params {
+		if sl, ok := p.Type().Underlying().(*types.Slice); ok {
+			if b, ok := sl.Elem().Underlying().(*types.Basic); ok && b.Kind() == types.String {
+				capParam = p
+			}
+		}
+	}
+	if capParam == nil {
+		r.Undecided(ri, "findNode has no []string captures parameter")
+		return
+	}
+	n := 0
+	check := func(kind string, at ssa.Instruction, v ssa.Value) {
+		n++
+		ok := true
+		why := ""
+		// the slice handed on: the parameter itself or append(parameter, ...)
+		var walk func(v ssa.Value, depth int)
+		walk = func(v ssa.Value, depth int) {
+			if depth > 6 {
+				return
+			}
+			for _, o := range w.Origins(v, nil) {
+				switch x := o.(type) {
+				case *ssa.Parameter:
+					if x != capParam {
+						ok, why = false, "the values come from another parameter"
+					}
+				case *ssa.Call:
+					if b, isB := x.Call.Value.(*ssa.Builtin); isB && b.Name() == "append" {
+						walk(x.Call.Args[0], depth+1)
+						continue
+					}
+					ok, why = false, "the values are the result of "+callName(x.Common())
+				case *ssa.Extract:
+					ok, why = false, "the values are what an earlier alternative returned (lost when that alternative failed)"
+				case *ssa.Const:
+				default:
+					ok, why = false, "the values originate from "+o.String()
+				}
+			}
+		}
+		walk(v, 0)
+		r.Ob(ri, fmt.Sprintf("%s|%s#%d", w.FnName(fn), kind, n), at.Pos(), ok,
+			"an alternative of the lookup step is tried with captured values that are not this step's own ("+why+"): the matcher of the finally matching expression sees fewer values than keys")
+	}
+	for _, ci := range callsIn(fn) {
+		c, ok := ci.(*ssa.Call)
+		if !ok {
+			continue
+		}
+		if callee := c.Common().StaticCallee(); callee != nil && callee.Name() == fn.Name() {
+			for i, a := range c.Common().Args {
+				if i < len(fn.Params) && fn.Params[i] == capParam {
+					check("descent", c, a)
+				}
+			}
+		}
+	}
+	for _, ci := range callsIn(fn) {
+		c, ok := ci.(*ssa.Call)
+		if ok && c.Common().IsInvoke() && c.Common().Method.Name() == "Match" && len(c.Common().Args) == 3 {
+			check("match", c, c.Common().Args[2])
+		}
+	}
+	if n == 0 {
+		r.Undecided(ri, "no recursive descent with a captures argument found")
 	}
 }
